@@ -16,7 +16,7 @@ CHECKS = {
    "Every nil/non-nil and list-length combination up to a node bound, singly and in ordered pairs, nested lists in every length combination and run-structured long inputs are written; the levels and values the reference parser decodes per column are compared with the Dremel paper's striping, and a specification-only assembly must return the records.",
    "Catalogue shapes only (others under C05); reference striping pinned to the Dremel paper example.", "4/C03"),
  "C04": ("exploration", "deviation-bounded enumeration of physical encodings by an independent writer",
-   "For fixed logical content an independent writer emits every file within <= d deviations from a baseline physical plan (all legal level run plans, page splits incl. a menu of splits for 20-record contents, codecs, snappy stream shapes, optional thrift content, legal BIT_PACKED labels) and the generated reader must return the records; d=1 exhaustive, d=2 over a reduced set, plus long run families.",
+   "For fixed logical content an independent writer emits every file within <= d deviations from a baseline physical plan (all legal level run plans, page splits incl. a menu of splits for 20-record contents, codecs, snappy stream shapes, optional thrift content, legal BIT_PACKED labels, row groups without rows) and the generated reader must return the records; d=1 exhaustive, d=2 over a reduced set, plus long run families and pages above 32 KiB / 64 KiB / 1 MiB in every codec.",
    "Foreign writer and reference parser cross-checked on every file; snappy/gzip libraries trusted; zero padding bits.", "4/C04"),
  "C05": ("exploration", "exhaustive program enumeration over a bounded struct grammar (generate, compile, run against reference oracles)",
    "Every struct definition of the grammar (quick: 2073 shapes of depth<=2 with <=2 leaves plus leaf-type x context plus every shape with two like groups declared with one shared struct type; thorough: depth<=3 / 3 leaves) goes through the freshly built parquetgen twice, the Go compiler, and the round-trip, validity and striping oracles on every value up to a node bound; each failing (shape, class) must be in the committed known-findings list.",
@@ -31,7 +31,7 @@ CHECKS = {
    "Every fixed chunk size, every single short read at every call index (pairs in thorough), data-with-EOF, with and without io.ByteReader, over workloads incl. chunks whose page headers shrink and grow: the reader must return the same records.",
    "Short reads deliver >= 1 byte.", "4/C08"),
  "C09": ("fault_enumeration", "exhaustive enumeration of the failing sink call index",
-   "For every workload and codec, every index k of the failing sink Write call, four fault kinds (pairs in thorough): the API call during which it failed must return an error.",
+   "For every workload and codec, every index k of the failing sink Write call, six fault kinds (nothing / half / all of the bytes accepted, transient or sticky; pairs in thorough): the API call during which it failed must return an error.",
    "The caller abandons the writer after the first error.", "4/C09"),
  "C10": ("fault_enumeration", "exhaustive enumeration of the failing source call index",
    "For every workload and codec, every index k of the failing Read/Seek/ReadByte call, three error kinds, transient/sticky/with-data (pairs in thorough): error reported or all rows correct, never a panic.",
@@ -43,7 +43,7 @@ CHECKS = {
    "Every ordered page content up to length m over each type's alphabet with nulls interleaved, for all 24 column kinds and nested contexts (every sequence of record states for 8 types x required/optional below optional and repeated groups): null_count exact, min/max (when present) bound every value in the type's order.",
    "Absent min/max accepted.", "4/C12"),
  "C13": ("model_checking", "stateless schedule exploration (CHESS-style DFS over choice prefixes, deviation-bounded) of the real code under a cooperative scheduler + separate free-running -race pass",
-   "2-3 independent writer/reader instances run as goroutines under a cooperative scheduler whose points are the pool Get/Put, sink and source operations (pool Get is also a data choice); every execution with <= b preemptions/pool deviations is enumerated for two pool modes and six prior pool contents, and each instance's output must equal its solo run on an ideal pool; use-after-Put and double-Put monitors. The data-race clause is decided by a free-running -race pass of the same bodies.",
+   "2-3 independent writer/reader instances run as goroutines under a cooperative scheduler whose points are the pool Get/Put, sink and source operations (pool Get is also a data choice); every execution with <= b preemptions/pool deviations is enumerated for two pool modes and six prior pool contents, and each instance's output must equal its solo run on an ideal pool; use-after-Put and double-Put monitors; plus, for every sink/source call index k, an instance whose environment fails at k followed by a healthy instance. The data-race clause is decided by a free-running -race pass of the same bodies.",
    "Buffers are instance-private between Get and Put (violations of that are what the monitors and poison-on-Put detect); the race clause is dynamic detection on sampled schedules.", "4/C13"),
  "C14": ("exploration", "exhaustive program enumeration of decorations of base struct definitions, byte-for-byte differential against the base",
    "Every insertion of an excluded field (every position, every struct, a menu of Go types and names), every replacement of a run of fields by an embedded struct, and every such embedding paired with an excluded field next to (or inside) the embedded struct is generated, compiled and run next to its base definition; files must be byte-identical for every enumerated value and excluded fields must scan back as zero.",
@@ -52,13 +52,13 @@ CHECKS = {
    "Every source struct of the non-repeated grammar (column names unique, and leaf names reused across parents) is generated and compiled, writes files for every record structure up to a node bound with extreme values, and parquetgen -parquet regenerates struct + reader from the file; the regenerated schema must equal what the reference parser finds in the file and the regenerated reader must return exactly the written values.",
    "Source structs whose own writer fails produce no file and are counted, not judged.", "4/C15"),
  "C16": ("exploration", "bounded exhaustive file enumeration vs independent parser, field-by-field",
-   "ReadMetaData, PageHeaders and PageHeadersAtOffset (every chunk start and every page start) are compared field by field with the reference parser's footer tree and sequential walk over the exhaustive file families.",
+   "ReadMetaData, PageHeaders and PageHeadersAtOffset (every chunk start and every page start) are compared field by field with the reference parser's footer tree and sequential walk over the exhaustive file families, through a plain reader and through sources that fragment their reads.",
    "Library-written files only.", "4/C16"),
  "C17": ("exploration", "complete enumeration of the finite domain on the real code",
    "Every one of the 2^8+2^16+2^24+2^32 value groups / byte groups of width 1-4 is pushed through the real internal/bitpack and compared with the specification's LSB-first little-endian layout and both round trips (and a result kept across a later call must stay unchanged); the domain is finite, so this is a complete decision, not a bound.",
    "Trusts the closed-form layout oracle (self-checked against a bit-by-bit packer) and the thin verif-tag re-export wrappers.", "4/C17"),
  "C18": ("exploration", "exhaustive placement of one unsupported feature at every (row group, column, page) of valid foreign files",
-   "Every unsupported page type, value encoding, level encoding and codec, genuinely encoded where feasible, at every position: the reader must report an error, never rows, never panic; negative controls must be accepted.",
+   "Every unsupported page type, value encoding, level encoding and codec, genuinely encoded where feasible, at every position of base files with two row groups and with a row group without rows in the middle: the reader must report an error, never rows, never panic; negative controls must be accepted.",
    "One feature per file.", "4/C18"),
 }
 PENDING = {}
